@@ -21,4 +21,6 @@ EXPLANATION = (
 TRUSTED = ["pyvc symbolic executor; z3 5.1", "h5py model: datasets/attributes read back what was written (pyvc.lib.h5)",
            "np.char.decode(np.char.encode(a), 'utf-8') == a for str arrays (assumed)",
            "assumed encoder contracts (pandas; C01), incl. that encode_1d is a deterministic function of its input"]
-ASSUMPTIONS = ["bit-for-bit float storage and utf-8 round trip are library behaviour (assumed, conformance-tested natively)"]
+ASSUMPTIONS = ["bit-for-bit float storage and utf-8 round trip are library behaviour (assumed, conformance-tested natively)",
+               "np.char.encode / decode are modelled as inverse element-wise maps that keep the shape; this holds for non-empty arrays only (np.char.encode of an EMPTY array returns an "
+               "empty float64 array of shape (0,)): the zero-row screen is therefore decided by the native harness, where it fails - known finding F9, listed in known_findings.json"]
